@@ -205,7 +205,7 @@ Definition run_case_C02 (c : case) : bytes :=
   | cap :: maxage :: bug :: rest =>
     match decode_trace (length rest) rest with
     | Some os =>
-      accept_out (mkParams (Z.to_nat cap) (negb (maxage =? 0)%Z)) (negb (bug =? 0)%Z) os
+      accept_out (mkParams (Z.to_nat cap) (negb (maxage =? 0)%Z) true) (negb (bug =? 0)%Z) os
     | None => str_badtrace
     end
   | _ => str_badtrace
